@@ -316,3 +316,41 @@ def r7(ctx):
             yield VIOL("C17-R7", "response-field/signing_key", "GetSigningKeyResponse.signing_key has type `%s`, not the redacting KSigningKey: the response's derived Debug prints the key" % ftys["signing_key"], where=loc(ctx.fn("signing_key::GetSigningKeyResponse::signing_key").j["span"]))
         elif "signing_key" in ftys:
             yield PASS("C17-R7", "response-field/signing_key", "GetSigningKeyResponse.signing_key: %s" % ftys["signing_key"], [])
+
+
+KEY_MAKERS = r"^signing_key::K\w+Key(<M>)?::to_k\w+$|^<signing_key::KSecretKey<M> as std::str::FromStr>::from_str$|^<signing_key::GetSigningKeyResponse as std::default::Default>::default$|^<signing_key::K\w+Key(<M>)? as std::clone::Clone>::clone$"
+
+
+@M.rule("C17-R8", "secrets live in the key types only: every HMAC key is key material, and key values are made by the reviewed derivations")
+def r8(ctx):
+    """A second home for a secret - `enum { Standard(KSecretKey), Extended(String) }` with a derived Debug - is invisible to
+    the flow rules, which start at the key types. What gives it away is its use: sooner or later it keys an HMAC. So (a)
+    the key argument of every `crypto::hmac_sha256` call in the crate must come from a key type (a raw key field, AsRef on
+    a key type, the provider response's signing key), and (b) values of the key types are constructed only by the
+    reviewed derivation methods, from_str and the response's Default."""
+    from taint import KEY_TYPES
+    n = 0
+    bad = 0
+    for body in ctx.facts.all_bodies():
+        if body.kind not in ("Fn", "AssocFn", "Closure") or body.path.startswith("crypto::"):
+            continue
+        for bi, t in body.calls(r"^crypto::hmac_sha256$|Mac::new_from_slice$|KeyInit::new_from_slice$"):
+            n += 1
+            sl = body.slice_op(t["args"][0])
+            from_key = any(raw_field_source({"local": l_, "proj": [{"field": f_, "idx": 0} for f_ in fs_]}, body) for l_, fs_ in sl.fieldreads) \
+                or any(is_key_type(body.local_ty(l_) or "") for l_ in sl.locals) \
+                or sl.has_call(r"GetSigningKeyResponse::signing_key$")
+            if not from_key:
+                bad += 1
+                yield VIOL("C17-R8", "%s/hmac-key-not-key-material" % body.path, "an HMAC is keyed with a value that does not come from one of the key types: the secret (or a derived key) is held in a type without the key types' redacting Debug / Display" , where=body.span_of_block(bi))
+        for bi, i, s in body.stmts():
+            if s["k"] == "assign" and s["rv"]["k"] == "aggregate" and any(str(s["rv"].get("adt", "")) == k_ for k_ in KEY_TYPES):
+                n += 1
+                if not re.search(KEY_MAKERS, re.sub(r"::\{closure#\d+\}$", "", body.path)):
+                    bad += 1
+                    yield VIOL("C17-R8", "%s/key-made-outside-derivations:%s" % (body.path, s["rv"]["adt"].split("::")[-1]), "a `%s` is constructed outside the reviewed derivation methods: its bytes come from somewhere the derivation and leak rules do not look" % s["rv"]["adt"].split("::")[-1], where=loc(s["span"]))
+    ctx.count(max(1, n))
+    if n < 6:
+        yield MISSING("C17-R8", "hmac-keys/floor", "only %d HMAC calls / key constructions found (>= 6 counted by hand)" % n)
+    elif not bad:
+        yield PASS("C17-R8", "hmac-keys/key-material-only", "%d HMAC calls and key constructions: keys come from the key types, key values from the reviewed derivations" % n, [])
